@@ -76,6 +76,7 @@ pub fn gen_program(r: &mut Rng, rich: bool, text_classes: &[&str]) -> Value {
     // one program in three gives every page's picture the same resource name and geometry (different samples)
     let shared_image = r.chance(1, 3);
     let shared_kind = *r.pick(&["rgb", "gray", "rgba"]);
+    let long_names = r.chance(1, 3);
     let mut pages = Vec::new();
     for pi in 0..npages {
         let (w, h) = *r.pick(&[(595.0, 842.0), (612.0, 792.0), (300.5, 400.25), (200.0, 200.0), (841.89, 595.28)]);
@@ -127,7 +128,7 @@ pub fn gen_program(r: &mut Rng, rich: bool, text_classes: &[&str]) -> Value {
             } * (iw * ih) as usize;
             images.push(json!({"name": "Chart", "kind": shared_kind, "w": iw, "h": ih, "data": crate::rec::hex(&r.bytes(n)), "at": [10.0, 20.0, 40.0, 30.0]}));
         } else if rich && !long_doc && r.chance(1, 2) {
-            for ii in 0..r.urange(1, 2) {
+            for ii in 0..(if long_names { r.urange(2, 3) } else { r.urange(1, 2) }) {
                 let (iw, ih) = (r.urange(1, 9) as u32, r.urange(1, 7) as u32);
                 let kind = *r.pick(&["rgb", "gray", "rgba"]);
                 let n = match kind {
@@ -135,7 +136,10 @@ pub fn gen_program(r: &mut Rng, rich: bool, text_classes: &[&str]) -> Value {
                     "gray" => 1,
                     _ => 4,
                 } * (iw * ih) as usize;
-                images.push(json!({"name": format!("Im{pi}x{ii}"), "kind": kind, "w": iw, "h": ih, "data": crate::rec::hex(&r.bytes(n)),
+                // long names with a common prefix of more than 16 bytes in some programs (orderings that look
+                // at a prefix of the key only cannot tell them apart)
+                let name = if long_names { format!("FigureResourceNumber_{pi}_{}", ["alpha", "beta", "gamma"][ii % 3]) } else { format!("Im{pi}x{ii}") };
+                images.push(json!({"name": name, "kind": kind, "w": iw, "h": ih, "data": crate::rec::hex(&r.bytes(n)),
                     "at": [10.0 + ii as f64 * 50.0, 20.0, 40.0, 30.0]}));
             }
         }
